@@ -178,17 +178,20 @@ func boundaryPool(pct, k, extra, dis int, kind string) (jPool, []jNode, bool) {
 }
 
 func partMappingBoundary(c *kit.Ctx) {
-	pcts := []int{10, 20, 25, 34, 50}
+	pcts := []int{10, 20, 25, 50}
 	kinds := []string{"ready-uninitialized", "instance-terminating", "unmanaged", "claim-without-node"}
 	if c.Thorough() {
 		pcts = []int{5, 10, 15, 20, 25, 33, 34, 50, 75}
 	}
 	for _, pct := range pcts {
 		for k := 1; k <= 3; k++ {
+			if !c.Thorough() && k*100/pct > 20 {
+				continue
+			}
 			for ki, kind := range kinds {
 				for extra := 1; extra <= 2; extra++ {
 					for dis := 0; dis <= 1; dis++ {
-						if !c.Thorough() && (k+ki+extra+dis)%2 == 1 && kind != "ready-uninitialized" {
+						if !c.Thorough() && kind != "ready-uninitialized" && (extra != 1 || dis != (k+ki)%2) {
 							continue
 						}
 						p, nodes, ok := boundaryPool(pct, k, extra, dis, kind)
@@ -206,7 +209,7 @@ func partMappingBoundary(c *kit.Ctx) {
 
 func partMapping(c *kit.Ctx) {
 	partMappingBoundary(c)
-	n := 60
+	n := 40
 	if c.Thorough() {
 		n = 300
 	}
